@@ -133,6 +133,28 @@ theorem release_terminates_acyclic {s : St} {b : Addr} (h : Owned s) (_hac : Acy
     ∧ Owned (apply s (.drop b)) :=
   ⟨release_terminates _, owned_drop h hb⟩
 
+/-! ## fresh memory reads as zero -/
+
+/-- `HeapAlloc nbytes` clears exactly the `(nbytes+7)/8*8` bytes it obtained: every requested byte reads as zero
+afterwards, and nothing outside the block is written. -/
+theorem alloc_zeroed (nbytes ptr : Nat) (m : Mem) (hn : 0 < nbytes) :
+    (∀ x, ptr ≤ x → x < ptr + nbytes → heapAllocZero nbytes ptr m x = 0) ∧
+    (∀ x, (x < ptr ∨ ptr + heapAllocSize nbytes ≤ x) → heapAllocZero nbytes ptr m x = m x) ∧
+    nbytes ≤ heapAllocSize nbytes ∧ heapAllocSize nbytes < nbytes + 8 ∧ heapAllocSize nbytes % 8 = 0 := by
+  have hsz : heapAllocSize nbytes / 8 * 8 = heapAllocSize nbytes := by unfold heapAllocSize; omega
+  have h0 : nbytes ≠ 0 := by omega
+  refine ⟨?_, ?_, by unfold heapAllocSize; omega, by unfold heapAllocSize; omega, by unfold heapAllocSize; omega⟩
+  · intro x h1 h2
+    simp only [heapAllocZero, h0, if_false, zeroLoop_spec]
+    have : ptr ≤ x ∧ x < ptr + 8 * (heapAllocSize nbytes / 8) := ⟨h1, by unfold heapAllocSize at hsz ⊢; omega⟩
+    simp [this]
+  · intro x hx
+    simp only [heapAllocZero, h0, if_false, zeroLoop_spec]
+    have : ¬ (ptr ≤ x ∧ x < ptr + 8 * (heapAllocSize nbytes / 8)) := by omega
+    simp [this]
+
+example : heapAllocZero 13 1000 (fun _ => 0xA5) 1012 = 0 ∧ heapAllocZero 13 1000 (fun _ => 0xA5) 1016 = 0xA5 := by decide
+
 /-! ## header layout: the constants of the model are those of heap.wat.ws (regenerated) -/
 
 theorem header_layout_matches_source :
